@@ -177,15 +177,17 @@ Lemma w_group_generated :
   idx_match mysql_driver (w_uq s_age) (w_uq []) = true /\ idx_match mysql_driver (w_uq s_age_2) (w_uq []) = true.
 Proof. repeat split; vm_compute; reflexivity. Qed.
 
-(* MySQL functional index names: functional_index is recognised, functional_index_2 never is *)
+(* MySQL functional index names: functional_index, functional_index_2, ... are recognised (since fix
+   C02-mysql-functional-index-suffix; before, only the first was) *)
 Definition s_fi2 : str := FUNCTIONAL_INDEX ++ [95;50]%N.
 Definition w_fi (name : str) : index := mkIndex name false [mkPart 0 false None (Some [40;97;41]%N)] None None (Some []).
 Lemma w_functional_index :
   mysql_is_generated_index_name w_grp_from (w_fi FUNCTIONAL_INDEX) = true /\
-  mysql_is_generated_index_name w_grp_from (w_fi s_fi2) = false.
+  mysql_is_generated_index_name w_grp_from (w_fi s_fi2) = true.
 Proof. split; vm_compute; reflexivity. Qed.
-Lemma mysql_functional_suffix_never t idx rest :
-  i_name idx = FUNCTIONAL_INDEX ++ ch_us :: rest -> mysql_is_generated_index_name t idx = false.
+(** functional_index_<rest> is a generated name exactly when <rest> is a number > 1 *)
+Lemma mysql_functional_suffix t idx rest :
+  i_name idx = FUNCTIONAL_INDEX ++ ch_us :: rest -> mysql_is_generated_index_name t idx = parse_int_gt 1 rest.
 Proof.
   intros E. unfold mysql_is_generated_index_name. rewrite E.
   assert (N1 : str_eqb (FUNCTIONAL_INDEX ++ ch_us :: rest) FUNCTIONAL_INDEX = false).
@@ -193,5 +195,8 @@ Proof.
   rewrite N1.
   assert (P : exists r, has_prefix FUNCTIONAL_INDEX ((FUNCTIONAL_INDEX ++ ch_us :: rest) ++ [ch_us]) = Some r).
   { rewrite <- app_assoc. generalize ((ch_us :: rest) ++ [ch_us]). intros l. unfold FUNCTIONAL_INDEX. simpl. eexists. reflexivity. }
-  destruct P as [r ->]. reflexivity.
+  destruct P as [r ->].
+  assert (Q : has_prefix (FUNCTIONAL_INDEX ++ [ch_us]) (FUNCTIONAL_INDEX ++ ch_us :: rest) = Some rest).
+  { unfold FUNCTIONAL_INDEX. simpl. reflexivity. }
+  rewrite Q. reflexivity.
 Qed.
